@@ -28,12 +28,14 @@ vs positional arguments and reordered independent statements do not matter.
   C02.RES    per allocating path of the reservation loop: one ledger (starting at zero) grows by
              max(share, min_power); share = (request - ledger) * q with the element's own ratio in q; the
              reserve stored is cap - min_power, or share - min_power under min_power <= share <= cap; a share
-             below min_power records share - min_power as deficit; a skipped group reserves nothing.
+             below min_power records share - min_power as deficit; a skipped group reserves nothing
+             (merged arms: a two-operand min/max whose order the path established is the operand it selects).
   C02.TAB    _inclusion_exclusion_bounds stores per component id that component's own bound of the table's
              kind in the requested direction (upper / negated lower; inclusion may be clipped further);
              consume asks for the consume tables, supply for the supply tables.
   C02.SIGN   consume: request handed on unchanged, result returned untouched; supply: request negated,
-             every set-point of that result negated back.
+             every set-point of that result negated back (a loop over the table, its keys or its items —
+             the value name standing for the entry —, or a one-clause dict comprehension rebuilding it).
   C02.SOCAGG a group's SoC and both SoC limits are the same aggregate of the batteries' values.
   C02.ADM    the admission check precedes the distribution on every path, its verdict is honoured, both see
              the same data; whatever it admits is outside the exclusion zone / inside the inclusion bounds
@@ -57,7 +59,7 @@ from ._c02_util import (BDA, BM, MOD, MinMax, Region, Roles, Wrong, all_calls, a
                         ctor_args,
                         discover_roles, entry, entry_bind, fields_of, has, is_zero, negative_established, nonzero_established, ordered,
                         zero_test,
-                        prep, q, regions, sc, strictly, table_sources, test_paths, the_call, value_before, writes)
+                        prep, q, regions, sc, settle_minmax, strictly, table_sources, test_paths, the_call, value_before, writes)
 
 
 # --------------------------------------------------------------------------------------------- shapes
@@ -592,6 +594,53 @@ def check_tab(run: Run, prog: Program) -> None:
                   instance=f"{efn.qual}: asks for the {'supply' if want else 'consume'} tables")
 
 
+def _mapping_view(it: ast.AST) -> tuple[ast.AST, str] | None:
+    """(mapping expression, 'keys' | 'items') when iterating `it` visits every key of a mapping exactly once: the
+    mapping itself, `.keys()`, `.items()`, possibly through a `list` / `tuple` / `sorted` / `reversed` / `iter` copy."""
+    while isinstance(it, ast.Call) and isinstance(it.func, ast.Name) and it.func.id in ("list", "tuple", "sorted", "reversed", "iter") \
+            and len(it.args) == 1 and not it.keywords and not isinstance(it.args[0], ast.Starred):
+        it = it.args[0]
+    if isinstance(it, ast.Call):
+        if isinstance(it.func, ast.Attribute) and it.func.attr in ("keys", "items") and not it.args and not it.keywords:
+            return it.func.value, it.func.attr
+        return None
+    return (it, "keys") if isinstance(it, (ast.Name, ast.Attribute, ast.Subscript)) else None
+
+
+def _negated_copy(v: ast.AST, mapping: str, te: TermEval) -> bool:
+    """`v` is `{k: -M[k] for k in M}` / `{k: -x for k, x in M.items()}` (one clause, no filter) for the mapping text M."""
+    if not (isinstance(v, ast.DictComp) and len(v.generators) == 1 and not v.generators[0].ifs and not v.generators[0].is_async):
+        return False
+    g = v.generators[0]
+    view = _mapping_view(g.iter)
+    if view is None or u(view[0]) != mapping:
+        return False
+    t = g.target
+    if view[1] == "keys" and isinstance(t, ast.Name):
+        key, alias = t.id, None
+    elif view[1] == "items" and isinstance(t, ast.Tuple) and len(t.elts) == 2 and all(isinstance(x, ast.Name) for x in t.elts):
+        key, alias = t.elts[0].id, t.elts[1].id  # type: ignore[attr-defined]
+    else:
+        return False
+    if not (isinstance(v.key, ast.Name) and v.key.id == key):
+        return False
+    entry_of_key = ast.Subscript(value=view[0], slice=ast.Name(id=key, ctx=ast.Load()), ctx=ast.Load())
+    val = _NameTo(alias, entry_of_key).visit(copy.deepcopy(v.value)) if alias is not None else v.value
+    return te.ev(val) == -Poly.atom(u(entry_of_key))
+
+
+class _NameTo(ast.NodeTransformer):
+    """Replace the loads of one name by an expression."""
+
+    def __init__(self, name: str, value: ast.AST) -> None:
+        self.name, self.value = name, value
+
+    def visit_Name(self, node: ast.Name) -> ast.AST:  # noqa: N802
+        if node.id == self.name and isinstance(node.ctx, ast.Load):
+            return copy.deepcopy(self.value)
+        return node
+
+
 def check_sign(run: Run, prog: Program) -> None:
     """Sign mirror as far as the bounds need it: the consume path hands the request on unchanged and returns
     the result untouched; the supply path hands on the negated request (the tables hold magnitudes) and
@@ -636,16 +685,43 @@ def check_sign(run: Run, prog: Program) -> None:
                       node=fn.node, file=fn.file, instance=f"{fn.qual}: bounded result returned untouched")
             continue
         ok = returned
-        loops = [r for r in regs if r.kind == "loop" and r.element() is not None and r.headers and all(
-            u(h) in (f"{res_text}.distribution", f"{res_text}.distribution.keys()") for h in r.headers)]
+        # the loop over the result's set-points, in any spelling that visits every key once: the mapping itself,
+        # `.keys()`, `.items()` (the value name then stands for the entry of the key), a list / sorted copy of them
+        loops = []
+        for r in regs:
+            view = _mapping_view(r.loop.iter) if r.kind == "loop" and isinstance(r.loop, ast.For) else None  # type: ignore[union-attr]
+            if view is None or not r.headers or not all(
+                    (hv := _mapping_view(h)) is not None and hv[1] == view[1] and u(hv[0]) == f"{res_text}.distribution"
+                    for h in r.headers):
+                continue
+            t = r.target
+            if view[1] == "keys" and isinstance(t, ast.Name):
+                loops.append((r, view[0], t.id, None))
+            elif view[1] == "items" and isinstance(t, ast.Tuple) and len(t.elts) == 2 and all(isinstance(x, ast.Name) for x in t.elts):
+                loops.append((r, view[0], t.elts[0].id, t.elts[1].id))  # type: ignore[attr-defined]
+        # ... or the table is rebuilt in one go: `res.distribution = {k: -v for k, v in res.distribution.items()}`
+        rebuilt = [(r, p, t, v) for r, p, t, v in touched if r.kind == "top" and u(t) == f"{res_text}.distribution"
+                   and _negated_copy(v, u(t), te)]
+        if rebuilt and not loops:
+            ok = ok and len(touched) == len(rebuilt) and all(
+                p.exit != "return" or sum(1 for _r, q2, _t, _v in rebuilt if q2 is p) == 1 for p, _st in regs[0].paths)
+            run.check(ok, "C02.SIGN", fn.qual, "every set-point of the result negated, that result returned",
+                      "the supply path does not negate every set-point of the (magnitude) result exactly once before "
+                      "returning it: inverters are commanded with the sign of the opposite direction, outside the "
+                      "bounds that were applied", node=fn.node, file=fn.file,
+                      instance=f"{fn.qual}: every set-point negated back, that result returned")
+            continue
         ok = ok and len(loops) == 1
-        for r in loops:
-            raw = u(r.loop.iter)  # type: ignore[union-attr]
-            base = raw[:-len(".keys()")] if raw.endswith(".keys()") else raw
-            tgt_text = f"{base}[{r.element()}]"
+        for r, base, key, alias in loops:
+            tgt_text = f"{u(base)}[{key}]"
+            entry_of_key = ast.Subscript(value=base, slice=ast.Name(id=key, ctx=ast.Load()), ctx=ast.Load())
             for p, st in r.paths:
                 ws = writes(p, lambda t, _v: u(t) == tgt_text)
-                ok = ok and st in ("next", "continue") and len(ws) == 1 and te.ev(ws[0][2]) == -Poly.atom(tgt_text)
+                ok = ok and st in ("next", "continue") and len(ws) == 1
+                if ok:
+                    val = _NameTo(alias, entry_of_key).visit(copy.deepcopy(ws[0][2])) if alias is not None else ws[0][2]
+                    ok = te.ev(val) == -Poly.atom(tgt_text)
+        loops = [r for r, _b, _k, _a in loops]
         ok = ok and all(any(r is lr for lr in loops) for r, _p, _t, _v in touched)
         run.check(ok, "C02.SIGN", fn.qual, "every set-point of the result negated, that result returned",
                   "the supply path does not negate every set-point of the (magnitude) result exactly once before "
@@ -1160,7 +1236,7 @@ def _check_res(run: Run, prog: Program, dp: FuncInfo, request: str | None, res: 
         cell_keys = {u(t.slice) for _e2, t, v in writes(p) if isinstance(t, ast.Subscript) and u(v) == u(e.node)}
         wrote_deficit = False
         for e2, tgt, val in writes(p, lambda t, _v: isinstance(t, ast.Subscript) and u(t.value) in (res, deficits)):
-            v = mm.ev(val)
+            v = mm.ev(settle_minmax(p, val))     # min(share, cap) is the operand the path's conditions select
             own_key = u(tgt.slice) in cell_keys  # type: ignore[attr-defined]
             text = f"{u(tgt)} = {u(val)}"
             if u(tgt.value) == res:  # type: ignore[attr-defined]
